@@ -53,6 +53,49 @@ theorem forRange_guard {α σ ρ : Type} (bad : α → Bool) (f : σ → α → 
       simp only [hx', List.all_cons, Bool.not_false, Bool.true_and, List.foldl_cons]
       rcases hok x s hx' with h | h <;> simp only [h] <;> rw [ih, hg]
 
+/-- `for { s = f s; if stop s { break } }` as a function of the fuel -/
+def iterUntil {σ : Type} (f : σ → σ) (stop : σ → Bool) : Nat → σ → σ
+  | 0, s => s
+  | n + 1, s => if stop (f s) then f s else iterUntil f stop n (f s)
+
+theorem forEver_eq {σ ρ : Type} (body : σ → Ctl σ ρ) (f : σ → σ) (stop : σ → Bool)
+    (hb : ∀ s, body s = if stop (f s) then Ctl.brk (f s) else Ctl.next (f s)) :
+    ∀ (fuel : Nat) (s : σ), forEver fuel body s = Ctl.next (iterUntil f stop fuel s)
+  | 0, _ => rfl
+  | n + 1, s => by
+    unfold forEver iterUntil
+    rw [hb]
+    cases hst : stop (f s) with
+    | true => simp
+    | false => simp [forEver_eq body f stop hb n (f s)]
+
+/-- with a measure that decreases on every round that does not stop, the loop ends by `break`
+    within the fuel; `I` is an invariant, `R` a transitive relation between the state before and
+    after a round -/
+theorem iterUntil_spec {σ : Type} (f : σ → σ) (stop : σ → Bool) (m : σ → Nat)
+    (I : σ → Prop) (R : σ → σ → Prop)
+    (hI : ∀ s, I s → I (f s) ∧ R s (f s))
+    (hR : ∀ a b c, R a b → R b c → R a c)
+    (hm : ∀ s, I s → stop (f s) = false → m (f s) < m s) :
+    ∀ (fuel : Nat) (s : σ), I s → m s < fuel →
+      ∃ s0, I s0 ∧ (s0 = s ∨ R s s0) ∧ stop (f s0) = true ∧ iterUntil f stop fuel s = f s0 := by
+  intro fuel
+  induction fuel with
+  | zero => intro s _ h; omega
+  | succ n ih =>
+    intro s hs hlt
+    unfold iterUntil
+    cases hst : stop (f s) with
+    | true => exact ⟨s, hs, Or.inl rfl, hst, by simp⟩
+    | false =>
+      simp only [Bool.false_eq_true, if_false]
+      have hlt' := hm s hs hst
+      obtain ⟨s0, h0, hr, hstop, he⟩ := ih (f s) (hI s hs).1 (by omega)
+      refine ⟨s0, h0, Or.inr ?_, hstop, he⟩
+      rcases hr with e | e
+      · rw [e]; exact (hI s hs).2
+      · exact hR _ _ _ (hI s hs).2 e
+
 /-! ## association lists -/
 
 theorem AList.get?_set_self {β : Type} (x : Name) (v : β) : ∀ (m : AList β), (m.set x v).get? x = some v
@@ -119,6 +162,16 @@ def precedenceOf (g : GClass) (inh : List Name) : List Sym :=
   let p := [Sym.cls g.name] ++ inh.map Sym.cls
   (if decide (0 < g.baseClass.toList.length) && (p.getLast? != g.baseClass) then p ++ g.baseClass.toList else p)
     ++ [Sym.t]
+
+/-- the class object after a successful merge -/
+def mergedClass (H : Heap) (g : GClass) : GClass :=
+  { g with
+    inherit := mergedInherit H g.supers,
+    initForms := initFormsOf H g.slotDefs (mergedInherit H g.supers),
+    precedence := precedenceOf g (mergedInherit H g.supers) }
+
+/-- the class object after a failed merge -/
+def failedClass (g : GClass) : GClass := { g with inherit := [] }
 
 theorem precedenceOf_standard (g : GClass) (inh : List Name) (hb : g.baseClass = some Sym.standardObject) :
     precedenceOf g inh = Sym.cls g.name :: inh.map Sym.cls ++ [Sym.standardObject, Sym.t] := by
@@ -219,5 +272,195 @@ theorem mergedInherit_eq (H : Heap) (supers : List Name) :
   unfold mergedInherit
   rw [dedup_eq_appendNew (supers ++ _), appendNew_append, ← dedup_eq_appendNew supers]
   exact appendNew_flatMap_dedup H.inheritOf supers (dedup supers)
+
+/-! ## abstraction: the heap of class objects as a state of the hand model -/
+
+def absSlot (sd : GSlot) : SlotDef := { name := sd.name, initargs := sd.initargs, initform := sd.initform }
+
+def absDef (g : GClass) : ClassDef := { supers := g.supers, slots := g.slotDefs.map (fun kv => absSlot kv.2) }
+
+/-- a class object is ready when its precedence list has been filled; then `inherit` is its list -/
+def absInh (g : GClass) : Option (List Name) := if g.precedence = [] then none else some g.inherit
+
+def absEntry (g : GClass) : Entry := { name := g.name, defn := absDef g, inh := absInh g }
+
+def abs (h : Heap) : State := h.map absEntry
+
+theorem find_abs : ∀ (h : Heap) (c : Name), find (abs h) c = (h.get? c).map absEntry
+  | [], _ => rfl
+  | g :: h, c => by
+    by_cases hn : g.name = c
+    · simp [abs, find, Heap.get?, absEntry, hn]
+    · have := find_abs h c
+      simp only [abs] at this
+      simp [abs, find, Heap.get?, absEntry, hn, this]
+
+theorem defOf_abs (h : Heap) (c : Name) : defOf (abs h) c = (h.get? c).map absDef := by
+  unfold defOf
+  rw [find_abs]
+  cases h.get? c <;> simp [absEntry]
+
+theorem names_abs (h : Heap) : names (abs h) = h.allClasses := by
+  simp [names, abs, Heap.allClasses, absEntry]
+
+theorem readyIn_iff (h : Heap) (c : Name) :
+    readyIn h c = true ↔ ∃ g, h.get? c = some g ∧ g.precedence ≠ [] := by
+  unfold readyIn Heap.isNil Heap.precOf
+  cases hg : h.get? c with
+  | none => simp
+  | some g => cases hp : g.precedence <;> simp [hp]
+
+theorem inhOf_abs (h : Heap) (c : Name) :
+    inhOf (abs h) c = if readyIn h c then some (h.inheritOf c) else none := by
+  unfold inhOf
+  rw [find_abs]
+  unfold readyIn Heap.isNil Heap.precOf Heap.inheritOf
+  cases hg : h.get? c with
+  | none => simp
+  | some g => cases hp : g.precedence <;> simp [absEntry, absInh, hp]
+
+theorem collect_abs (h : Heap) : ∀ (xs : List Name),
+    collect (inhOf (abs h)) xs = if xs.all (readyIn h) then some (xs.flatMap h.inheritOf) else none
+  | [] => by simp [collect]
+  | x :: xs => by
+    simp only [collect, inhOf_abs, collect_abs h xs, List.all_cons, List.flatMap_cons]
+    by_cases hx : readyIn h x = true
+    · by_cases hr : xs.all (readyIn h) = true <;> simp [hx, hr]
+    · simp [hx]
+
+/-- the model's merge attempt on the abstracted heap is the specification of the translated one -/
+theorem mergeSupers_abs (h : Heap) (g : GClass) :
+    Clos.mergeSupers (abs h) (absDef g) =
+      if g.supers.all (readyIn h) then some (mergedInherit h g.supers) else none := by
+  unfold Clos.mergeSupers mergeWith
+  rw [collect_abs]
+  by_cases hr : g.supers.all (readyIn h) = true <;> simp [hr, absDef, mergedInherit]
+
+/-- class names are unique in the table -/
+def NodupNames (h : Heap) : Prop := h.allClasses.Nodup
+
+theorem allClasses_put (g' : GClass) : ∀ (h : Heap), (h.put g').allClasses = h.allClasses
+  | [] => rfl
+  | g :: h => by
+    by_cases hn : g.name = g'.name
+    · simp [Heap.put, Heap.allClasses, hn]
+    · have := allClasses_put g' h
+      simp only [Heap.allClasses] at this
+      simp [Heap.put, Heap.allClasses, hn, this]
+
+theorem mem_allClasses_of_get? {h : Heap} {c : Name} {g : GClass} (hg : h.get? c = some g) :
+    c ∈ h.allClasses := by
+  have := Heap.get?_mem hg
+  have hn := Heap.get?_name hg
+  simp only [Heap.allClasses, List.mem_map]
+  exact ⟨g, this, hn⟩
+
+theorem get?_of_mem_allClasses : ∀ {h : Heap} {c : Name}, c ∈ h.allClasses → ∃ g, h.get? c = some g
+  | [], _, hc => by simp [Heap.allClasses] at hc
+  | g0 :: h, c, hc => by
+    by_cases hn : g0.name = c
+    · exact ⟨g0, by simp [Heap.get?, hn]⟩
+    · have : c ∈ Heap.allClasses h := by
+        simp only [Heap.allClasses, List.map_cons, List.mem_cons] at hc
+        rcases hc with e | e
+        · exact absurd e.symm hn
+        · exact e
+      obtain ⟨g, hg⟩ := get?_of_mem_allClasses this
+      exact ⟨g, by simp [Heap.get?, hn, hg]⟩
+
+/-- a class object mutated in place (same name, same definition): at the level of the hand model
+    only its inheritance list changes -/
+theorem abs_put : ∀ {h : Heap} {g g' : GClass}, NodupNames h → h.get? g.name = some g →
+    g'.name = g.name → absDef g' = absDef g → abs (h.put g') = setInh (abs h) g.name (absInh g')
+  | [], _, _, _, hg, _, _ => by simp [Heap.get?] at hg
+  | g0 :: h, g, g', hn, hg, hname, hdef => by
+    have hnd : g0.name ∉ Heap.allClasses h ∧ NodupNames h := by
+      simpa [NodupNames, Heap.allClasses] using hn
+    by_cases h0 : g0.name = g.name
+    · have e : g0 = g := by simpa [Heap.get?, h0] using hg
+      subst e
+      have hrest : ∀ e ∈ abs h, e.name ≠ g0.name := by
+        intro e he hen
+        apply hnd.1
+        simp only [abs, List.mem_map] at he
+        obtain ⟨x, hx, rfl⟩ := he
+        simp only [Heap.allClasses, List.mem_map]
+        exact ⟨x, hx, hen⟩
+      have hmap : (abs h).map (fun e => if e.name = g0.name then { e with inh := absInh g' } else e) = abs h := by
+        conv => rhs; rw [← List.map_id (abs h)]
+        apply List.map_congr_left
+        intro e he
+        simp [hrest e he]
+      simp only [Heap.put, hname, if_true, abs, List.map_cons, setInh]
+      simp only [abs] at hmap
+      rw [hmap]
+      simp [absEntry, hname, hdef]
+    · have hg' : Heap.get? h g.name = some g := by simpa [Heap.get?, h0] using hg
+      have ih := abs_put hnd.2 hg' hname hdef
+      have h0' : ¬ g0.name = g'.name := by rw [hname]; exact h0
+      simp only [Heap.put, h0', if_false, abs, List.map_cons, setInh]
+      simp only [abs, setInh] at ih
+      rw [ih]
+      simp [absEntry, h0]
+
+/-- replacing a class object by one with the same abstraction changes nothing for the hand model -/
+theorem abs_put_same : ∀ {h : Heap} {g g' : GClass}, Heap.get? h g.name = some g →
+    g'.name = g.name → absEntry g' = absEntry g → abs (Heap.put h g') = abs h
+  | [], _, _, hg, _, _ => by simp [Heap.get?] at hg
+  | g0 :: h, g, g', hg, hname, he => by
+    by_cases h0 : g0.name = g.name
+    · have e : g0 = g := by simpa [Heap.get?, h0] using hg
+      subst e
+      simp [Heap.put, hname, abs, he]
+    · have hg' : Heap.get? h g.name = some g := by simpa [Heap.get?, h0] using hg
+      have ih := abs_put_same hg' hname he
+      have h0' : ¬ g0.name = g'.name := by rw [hname]; exact h0
+      simp only [abs] at ih
+      simp [Heap.put, h0', abs, ih]
+
+theorem getD_of_get? {h : Heap} {c : Name} {g : GClass} (hg : h.get? c = some g) : h.getD c = g := by
+  simp [Heap.getD, hg]
+
+theorem get?_put_of_ne (g' : GClass) {c : Name} (hc : c ≠ g'.name) : ∀ (h : Heap),
+    Heap.get? (Heap.put h g') c = Heap.get? h c
+  | [] => rfl
+  | g :: h => by
+    by_cases hn : g.name = g'.name
+    · have : ¬ g'.name = c := fun e => hc e.symm
+      have hgc : ¬ g.name = c := by rw [hn]; exact this
+      simp [Heap.put, hn, Heap.get?, this, hgc]
+    · by_cases hgc : g.name = c
+      · subst hgc
+        simp [Heap.put, hn, Heap.get?]
+      · simp [Heap.put, hn, Heap.get?, hgc, get?_put_of_ne g' hc h]
+
+/-- a class that is ready stays ready with its list through merge attempts -/
+theorem inhOf_tryReady_of_some {s : State} {c : Name} {l : List Name} (k : Name)
+    (h : inhOf s c = some l) : inhOf (tryReady s k) c = some l := by
+  rcases tryReady_cases s k with e | ⟨e, l', hf, hi, _, e'⟩
+  · rw [e]; exact h
+  · rw [e']
+    by_cases hck : c = k
+    · subst hck
+      simp [inhOf, hf, hi] at h
+    · rw [inhOf_setInh_ne s _ hck]; exact h
+
+theorem inhOf_foldl_tryReady_of_some : ∀ (cs : List Name) {s : State} {c : Name} {l : List Name},
+    inhOf s c = some l → inhOf (cs.foldl tryReady s) c = some l
+  | [], _, _, _, h => h
+  | k :: cs, _, _, _, h => inhOf_foldl_tryReady_of_some cs (inhOf_tryReady_of_some k h)
+
+/-- a merge attempt that changes nothing, of a class that is not ready, is a failed merge -/
+theorem merge_none_of_tryReady_eq {s : State} {c : Name} {e : Entry} (hf : find s c = some e)
+    (hi : e.inh = none) (h : tryReady s c = s) : Clos.mergeSupers s e.defn = none := by
+  cases hm : Clos.mergeSupers s e.defn with
+  | none => rfl
+  | some l =>
+    exfalso
+    have : tryReady s c = setInh s c (some l) := by
+      unfold tryReady; simp [hf, hi, hm]
+    have hlt := nr_setInh_lt c l hf hi
+    rw [← this, h] at hlt
+    omega
 
 end SlipVerif.ClosGo
